@@ -118,7 +118,8 @@ struct Outcome
 };
 
 Outcome execute(const std::vector<sim::Op>& plan, int prop, std::uint64_t env_seed, sim::Counters& ctr,
-                std::vector<std::uint64_t>* cases, const std::vector<std::string>& avoid)
+                std::vector<std::uint64_t>* cases, const std::vector<std::string>& avoid,
+                const std::vector<std::string>& known = {}, std::vector<std::uint64_t>* known_hits = nullptr)
 {
     Outcome out;
     sim::RunCtx rc;
@@ -126,6 +127,7 @@ Outcome execute(const std::vector<sim::Op>& plan, int prop, std::uint64_t env_se
     rc.ctr = &ctr;
     rc.nontrivial = cases;
     rc.avoid = avoid;
+    rc.known = known;
     sim::g_run = &rc;
     sim::g_ledger.reset();
     sim::g_heap.begin_run(env_seed, true);
@@ -149,6 +151,11 @@ Outcome execute(const std::vector<sim::Op>& plan, int prop, std::uint64_t env_se
     {
         out.status = 2;
         out.v = rc.block;
+    }
+    if (known_hits)
+    {
+        known_hits->resize(known.size());
+        for (std::size_t i = 0; i < rc.known_hits.size(); ++i) (*known_hits)[i] += rc.known_hits[i];
     }
     if (!rc.stop) delete h;  // otherwise the world is abandoned: its state is not trustworthy
     sim::g_run = nullptr;
@@ -220,7 +227,8 @@ int main(int argc, char** argv)
     bool thorough = false, hashes = false;
     const char* plan_path = nullptr;
     const char* cases_path = nullptr;
-    std::vector<std::string> avoid;
+    std::vector<std::string> avoid, known;
+    std::vector<std::uint64_t> known_hits;
     for (int i = 2; i < argc; ++i)
     {
         const std::string a = argv[i];
@@ -237,6 +245,7 @@ int main(int argc, char** argv)
         else if (a == "--plan") plan_path = next();
         else if (a == "--cases") cases_path = next();
         else if (a == "--avoid") avoid = split(next());
+        else if (a == "--known") known = split(next());
         else if (a == "--novg") {}
         else if (a == "--vg")
         {
@@ -261,8 +270,9 @@ int main(int argc, char** argv)
     {
         const auto rs = run_seed_of(seed, prop, run);
         const auto plan = sim::generate_plan(prop, rs, thorough, fault_population(prop, run));
-        std::printf("# cfg=%s prop=C%02d seed=%llu run=%ld env=%llu\n", CFG_NAME, prop,
-                    static_cast<unsigned long long>(seed), run, static_cast<unsigned long long>(sim::derive(rs, "env")));
+        std::printf("# cfg=%s prop=C%02d seed=%llu run=%ld env=%llu env2=%llu\n", CFG_NAME, prop,
+                    static_cast<unsigned long long>(seed), run, static_cast<unsigned long long>(sim::derive(rs, "env")),
+                    static_cast<unsigned long long>(sim::derive(rs, "env-alt")));
         std::fputs(sim::plan_to_text(plan).c_str(), stdout);
         return 0;
     }
@@ -275,10 +285,10 @@ int main(int argc, char** argv)
             return 2;
         }
         sim::g_cur_run = -1;
-        Outcome o = execute(plan, prop, env, ctr, nullptr, avoid);
+        Outcome o = execute(plan, prop, env, ctr, nullptr, avoid, known);
         if (o.status == 0 && env2 != 0)
         {
-            Outcome o2 = execute(plan, prop, env2, ctr, nullptr, avoid);
+            Outcome o2 = execute(plan, prop, env2, ctr, nullptr, avoid, known);
             if (o2.status != 0) o = o2;
             else if (o.transcript != o2.transcript)
             {
@@ -300,11 +310,11 @@ int main(int argc, char** argv)
             const auto rs = run_seed_of(seed, prop, idx);
             const auto plan = sim::generate_plan(prop, rs, thorough, fault_population(prop, idx));
             const auto e1 = sim::derive(rs, "env");
-            Outcome o = execute(plan, prop, e1, ctr, &cases, avoid);
+            Outcome o = execute(plan, prop, e1, ctr, &cases, avoid, known, &known_hits);
             if (o.status == 0 && differential(prop))
             {
                 const auto e2 = sim::derive(rs, "env-alt");
-                Outcome o2 = execute(plan, prop, e2, ctr, nullptr, avoid);
+                Outcome o2 = execute(plan, prop, e2, ctr, nullptr, avoid, known);
                 if (o2.status != 0) o = o2;
                 else if (o.transcript != o2.transcript)
                 {
@@ -361,6 +371,10 @@ int main(int argc, char** argv)
         std::printf("},\"probes\":{");
         for (int i = 0; i < sim::PB_COUNT; ++i)
             std::printf("%s\"%s\":%llu", i ? "," : "", sim::PROBE_NAMES[i], (unsigned long long)ctr.probes[i]);
+        std::printf("},\"known_hits\":{");
+        for (std::size_t i = 0; i < known.size(); ++i)
+            std::printf("%s\"%s\":%llu", i ? "," : "", known[i].c_str(),
+                        (unsigned long long)(i < known_hits.size() ? known_hits[i] : 0));
         std::printf("}}\n");
         return 0;
     }
